@@ -4,6 +4,8 @@ import (
 	"context"
 	"errors"
 	"time"
+
+	"github.com/form3tech-oss/f1/v2/internal/verifhook"
 )
 
 // RunFunction is a function type that represents the function to be executed by the Runner.
@@ -69,6 +71,7 @@ func (r *Runner) Start(ctx context.Context) {
 			case <-r.schedules.timeUntilNextSchedule():
 				r.schedules.startNext()
 			case <-r.schedules.currentScheduleTicker():
+				verifhook.Yield("raterun.before_dispatch")
 				r.runFunction(r.schedules.currentFrequency())
 			case <-schedulesCtx.Done():
 				r.schedules.stop()
